@@ -96,7 +96,7 @@ def writeGo (escSpace : Bool) : Bool → Bytes → Bytes
     if esc && isPunct c then escByte c ++ writeGo escSpace false cs
     else if esc && escSpace && c == 32 then writeGo escSpace false cs
     else
-      (if esc then [92] else []) ++
+      (if esc then ([92] : Bytes) else []) ++
       (if c == 0 then replacementChar ++ writeGo escSpace false cs
        else if c == 38 then
          match h : tryRefW cs with
@@ -108,7 +108,7 @@ termination_by _ l => l.length
 decreasing_by
   all_goals simp_wf
   all_goals (try omega)
-  · have := tryRefW_len h; omega
+  all_goals (have := tryRefW_len h; omega)
 
 def write (escSpace : Bool) (v : Bytes) : Bytes := writeGo escSpace false v
 
